@@ -22,6 +22,7 @@ import (
 type concScen struct {
 	Progs []cprog `json:"progs"`
 	res   []cres
+	pre   []*base.SentinelEntry
 }
 
 type cprog struct {
@@ -29,6 +30,10 @@ type cprog struct {
 	Arg   string `json:"arg"` // "" = no argument
 	Trace bool   `json:"trace"`
 	Batch uint32 `json:"batch"`
+	// Pre: the entry was made before the threads start (the thread only traces / exits it);
+	// Helper: the thread makes no entry of its own, it calls Exit on thread 0's entry - two callers exit ONE entry
+	Pre    bool `json:"entry_made_before,omitempty"`
+	Helper bool `json:"exits_entry_of_thread_0,omitempty"`
 }
 
 type cres struct {
@@ -45,6 +50,27 @@ func (s *concScen) setup() {
 		panic(err)
 	}
 	s.res = make([]cres, len(s.Progs))
+	s.pre = make([]*base.SentinelEntry, len(s.Progs))
+	for i, p := range s.Progs {
+		if p.Pre {
+			e, blk := sentinel.Entry(p.Res, s.optsOf(p)...)
+			if blk != nil {
+				panic("harness: pre-made entry blocked")
+			}
+			s.pre[i] = e
+		}
+	}
+}
+
+func (s *concScen) optsOf(p cprog) []sentinel.EntryOption {
+	opts := []sentinel.EntryOption{sentinel.WithBatchCount(p.Batch)}
+	if p.Res == "r2" {
+		opts = append(opts, sentinel.WithTrafficType(base.Inbound))
+	}
+	if p.Arg != "" {
+		opts = append(opts, sentinel.WithArgs(p.Arg))
+	}
+	return opts
 }
 
 func (s *concScen) threads() []func() {
@@ -53,15 +79,19 @@ func (s *concScen) threads() []func() {
 		i := i
 		p := s.Progs[i]
 		fns[i] = func() {
-			opts := []sentinel.EntryOption{sentinel.WithBatchCount(p.Batch)}
-			if p.Res == "r2" {
-				opts = append(opts, sentinel.WithTrafficType(base.Inbound))
-			}
-			if p.Arg != "" {
-				opts = append(opts, sentinel.WithArgs(p.Arg))
-			}
-			e, blk := sentinel.Entry(p.Res, opts...)
 			r := &s.res[i]
+			if p.Helper {
+				s.pre[0].Exit()
+				r.passed, r.argsOK, r.errOK, r.done = true, true, true, true
+				return
+			}
+			var e *base.SentinelEntry
+			var blk *base.BlockError
+			if p.Pre {
+				e = s.pre[i]
+			} else {
+				e, blk = sentinel.Entry(p.Res, s.optsOf(p)...)
+			}
 			if blk == nil && e != nil {
 				r.passed = true
 				if p.Trace {
@@ -73,6 +103,10 @@ func (s *concScen) threads() []func() {
 				ctx := e.Context()
 				r.argsOK = (p.Arg == "" && len(ctx.Input.Args) == 0) || (len(ctx.Input.Args) == 1 && ctx.Input.Args[0] == p.Arg)
 				r.errOK = (p.Trace && ctx.Err() == errs[i]) || (!p.Trace && ctx.Err() == nil)
+				if p.Pre {
+					// another caller may have exited this entry already: its context is no longer its own
+					r.argsOK, r.errOK = true, true
+				}
 				e.Exit()
 			}
 			r.done = true
@@ -97,6 +131,9 @@ func (s *concScen) check(x *vsched.Exec) (string, string) {
 		}
 		if !r.errOK {
 			return "ERR", fmt.Sprintf("thread %d: its live entry's error was changed by another entry", i)
+		}
+		if p.Helper {
+			continue
 		}
 		for _, n := range nodesOf(p.Res) {
 			w := want[n]
@@ -172,10 +209,13 @@ type concReplay struct {
 
 func runConc(c *props.Ctx) {
 	scs := []*concScen{
-		{Progs: []cprog{{"r1", "A", false, 1}, {"r1", "B", false, 1}}},
-		{Progs: []cprog{{"r1", "A", true, 1}, {"r1", "A", false, 1}}},
-		{Progs: []cprog{{"r1", "A", true, 1}, {"r2", "", false, 3}}},
-		{Progs: []cprog{{"r2", "", true, 1}, {"r2", "", false, 3}}},
+		{Progs: []cprog{{Res: "r1", Arg: "A", Batch: 1}, {Res: "r1", Arg: "B", Batch: 1}}},
+		{Progs: []cprog{{Res: "r1", Arg: "A", Trace: true, Batch: 1}, {Res: "r1", Arg: "A", Batch: 1}}},
+		{Progs: []cprog{{Res: "r1", Arg: "A", Trace: true, Batch: 1}, {Res: "r2", Batch: 3}}},
+		{Progs: []cprog{{Res: "r2", Trace: true, Batch: 1}, {Res: "r2", Batch: 3}}},
+		// one entry, two callers of Exit at the same time (Exit is idempotent: one completion)
+		{Progs: []cprog{{Res: "r2", Batch: 2, Pre: true}, {Helper: true}}},
+		{Progs: []cprog{{Res: "r1", Arg: "A", Batch: 1, Pre: true}, {Helper: true}, {Res: "r1", Arg: "A", Batch: 1}}},
 	}
 	bound := 1
 	if !c.Quick() {
